@@ -596,7 +596,16 @@ func TestC09Values(t *testing.T) {
 			v := genNested(r, i)
 			roundTrip(run, bus, mem, &v, "*nested", 2)
 		case 4:
-			roundTrip(run, bus, mem, custom{ID: i, X: r.IntN(1000)}, "custom-MarshalJSON", 1)
+			cv := custom{ID: i, X: r.IntN(1000)}
+			roundTrip(run, bus, mem, cv, "custom-MarshalJSON", 1)
+			roundTrip(run, bus, mem, cv, "the-same-value-published-again", 2) // a second publish is a second event
+			// events of unnamed Go types (their reflection names contain spaces and punctuation)
+			roundTrip(run, bus, mem, map[string]any{"id": float64(i), "s": str(r)}, "map[string]any", 2)
+			roundTrip(run, bus, mem, []any{float64(i), str(r), nil}, "[]any", 2)
+			roundTrip(run, bus, mem, struct {
+				ID int
+				S  string
+			}{i, str(r)}, "anonymous-struct", 2)
 		case 5:
 			roundTrip(run, bus, mem, named{ID: i}, "TypeNamer", 1)
 			roundTrip(run, bus, mem, unnamed{ID: i}, "TypeNamer-returning-the-empty-name", 2)
@@ -611,7 +620,7 @@ func TestC09Values(t *testing.T) {
 			roundTrip(run, bus, mem, ptrRecv{ID: i, X: r.IntN(9)}, "pointer-receiver-MarshalJSON-by-value", 2)
 			roundTrip(run, bus, mem, &ptrRecv{ID: i, X: r.IntN(9)}, "pointer-receiver-MarshalJSON-by-pointer", 2)
 			if i%200 == 8 {
-				roundTrip(run, bus, mem, bigEv{ID: i, Blob: strings.Repeat(str(r)+"x", 200000)}, "large-event", 2)
+				roundTrip(run, bus, mem, bigEv{ID: i, Blob: strings.Repeat(str(r)+"xyz", 400000)}, "large-event", 2)
 			}
 		case 9:
 			roundTrip(run, bus, mem, mapEv{str(r): i, "k": -i}, "named-map", 1)
